@@ -148,7 +148,13 @@ def record(check, n, seed):
     rng = random.Random(seed)
     inputs = []
     kinds = dict(conforming=0, mutated=0, unrelated=0)
+    kinds['eqmix'] = 0
     while len(inputs) < n:
+        if rng.random() < 0.05:
+            p, t = G.gen_eqmix(rng)
+            kinds['eqmix'] += 1
+            inputs.append((p, t, 'eqmix'))
+            continue
         p = G.gen_pattern(rng, rng.randint(1, 4))
         t = G.conforming(rng, p)
         if t is None:
